@@ -272,6 +272,7 @@ func boundaries(toks []corpus.Token) []int {
 }
 
 func genInsert(t *rapid.T) Case {
+	corpus.OddTextParsed()
 	bs := baseQueries()
 	base := bs[rapid.IntRange(0, len(bs)-1).Draw(t, "base")]
 	name := rapid.SampledFrom(constructNames()).Draw(t, "construct")
@@ -332,6 +333,7 @@ func genInsert(t *rapid.T) Case {
 var grammar *g4.Grammar
 
 func genG4(t *rapid.T) Case {
+	corpus.OddTextParsed()
 	if grammar == nil {
 		g, err := g4.Load()
 		if err != nil {
@@ -388,15 +390,15 @@ func concOracle(c concCase) (evid.Info, error) {
 }
 
 func TestC09Concurrent(t *testing.T) {
-	evid.Prop(t, "conc", evid.R.N(1500, 10000), genConc, concOracle)
+	evid.Prop(t, "conc", evid.R.N(1500, 5000), genConc, concOracle)
 }
 
 func TestC09Insert(t *testing.T) {
-	evid.Prop(t, "insert", evid.R.N(8000, 80000), genInsert, oracle)
+	evid.Prop(t, "insert", evid.R.N(8000, 25000), genInsert, oracle)
 }
 
 func TestC09Grammar(t *testing.T) {
-	evid.Prop(t, "g4", evid.R.N(6000, 60000), genG4, oracle)
+	evid.Prop(t, "g4", evid.R.N(6000, 20000), genG4, oracle)
 }
 
 // every corpus query, as is
